@@ -14,6 +14,7 @@ class Sim:
         self.alive = alive
         self.sched = list(sched)
         self.log = []
+        self.waits = []            # the timeouts handed to select / poll / recv (C05: they must fit the caller's budget)
 
     def _next(self):
         if self.sched:
@@ -90,11 +91,13 @@ class Patched:
 
         def sel(r, w, x, timeout=None):
             if fd in r:
+                sim.waits.append(timeout)
                 return ([fd] if sim.poll() else [], [], [])
             return self.saved[0](r, w, x, timeout)
 
         def pol(fds, timeout=None):
             if fd in fds:
+                sim.waits.append(timeout)
                 return [fd] if sim.poll() else []
             return self.saved[1](fds, timeout)
 
@@ -138,6 +141,7 @@ class FakeSocket:
         self.timeouts_set.append(t)
 
     def recv(self, n):
+        self.sim.waits.append(self._timeout)
         if not self.sim.poll():
             if self._timeout == 0:
                 raise BlockingIOError(11, 'would block')
@@ -176,12 +180,14 @@ def run_calls(pexpect, which, sim, calls, use_poll=False):
     c, ctxm = make_reader(pexpect, which, sim, use_poll)
     out = []
     c._verif_timeout_changed = None
+    c._verif_waits = []
     own = [12.5, 7.25, 3.5, None, 40.0]
     with ctxm:
         for i, (size, t0) in enumerate(calls):
             if which == 2:
                 # the application changes the socket's own timeout between reads: each read must leave it as it found it
                 c.socket._timeout = own[i % len(own)]
+            del sim.waits[:]
             try:
                 d = c.read_nonblocking(size, timeout=0 if t0 else 5)
                 r = [0, d]
@@ -192,6 +198,7 @@ def run_calls(pexpect, which, sim, calls, use_poll=False):
             except BlockingIOError:
                 r = [3]
             out.append([r, sim.state(), len(sim.sched)])
+            c._verif_waits.append((0 if t0 else 5, list(sim.waits)))
             if which == 2 and c.socket.gettimeout() != own[i % len(own)] and c._verif_timeout_changed is None:
                 c._verif_timeout_changed = (own[i % len(own)], c.socket.gettimeout())
     if which == 1:
